@@ -192,20 +192,41 @@ func c11r3(c *core.Ctx) {
 			if !isIf {
 				continue
 			}
+			// every way from the rejecting edge to the next entry or the end of the handler stores a status and appends an answer
+			// (phi-aware walk: the rejection may travel through a flag, as after  if !accepted { ... } )
 			rej := iff.Block().Succs[1]
-			hasStatus, hasAppend := false, false
-			for _, x := range rej.Instrs {
+			every := func(hit func(ssa.Instruction) bool) bool {
+				escaped := false
+				core.Explore(rej, core.PredIndex(iff.Block(), 1), nil, func(b *ssa.BasicBlock) bool {
+					for _, x := range b.Instrs {
+						if hit(x) {
+							return false
+						}
+					}
+					if len(b.Succs) == 0 || b == iff.Block() {
+						escaped = true
+						return false
+					}
+					return true
+				})
+				return !escaped
+			}
+			hasStatus := every(func(x ssa.Instruction) bool {
 				if st, isSt := x.(*ssa.Store); isSt {
 					if fa, isFa := st.Addr.(*ssa.FieldAddr); isFa && fieldNameOf(fa) == "Status" && !core.IsNilConst(st.Val) {
-						hasStatus = true
+						return true
 					}
 				}
+				return false
+			})
+			hasAppend := every(func(x ssa.Instruction) bool {
 				if cc, isCall := x.(*ssa.Call); isCall {
 					if b, isB := cc.Call.Value.(*ssa.Builtin); isB && b.Name() == "append" {
-						hasAppend = true
+						return true
 					}
 				}
-			}
+				return false
+			})
 			if hasStatus && hasAppend {
 				ok = true
 			}
@@ -311,8 +332,10 @@ func c11r5(c *core.Ctx) {
 				}
 			})
 		}
+		// the scanned list is the receiver's Perms field and nothing else (a substituted default list grants permissions the
+		// published characteristic does not carry)
 		scan(f, func(v ssa.Value) bool {
-			return core.AnySource(v, func(s ssa.Value) bool {
+			return core.AllSources(v, func(s ssa.Value) bool {
 				b, ok := core.FieldLoad(s, tChar, "Perms")
 				return ok && b == ssa.Value(f.Params[0])
 			})
